@@ -36,12 +36,15 @@ pub struct UnboundedReceiver<T> { _p: core::marker::PhantomData<T> }
 
 impl<T> UnboundedReceiver<T> {
     pub uninterp spec fn received(&self) -> Seq<T>;
+    /// `parked()`: the most recent poll_recv returned Pending (the channel holds the worker's waker)
+    pub uninterp spec fn parked(&self) -> bool;
 }
 
 impl UnboundedReceiver<Conn> {
     #[verifier::external_body]
     pub fn poll_recv(&mut self, cx: &mut Context<'_>) -> (r: Poll<Option<Conn>>)
         ensures
+            final(self).parked() == (r is Pending),
             r matches Poll::Ready(Some(v)) ==> final(self).received() == old(self).received().push(v) && v.wf() && v.token < n_listeners(),
             !(r matches Poll::Ready(Some(_))) ==> final(self).received() == old(self).received(),
     { unimplemented!() }
@@ -51,6 +54,7 @@ impl UnboundedReceiver<Stop> {
     #[verifier::external_body]
     pub fn poll_recv(&mut self, cx: &mut Context<'_>) -> (r: Poll<Option<Stop>>)
         ensures
+            final(self).parked() == (r is Pending),
             r matches Poll::Ready(Some(v)) ==> final(self).received() == old(self).received().push(v),
             !(r matches Poll::Ready(Some(_))) ==> final(self).received() == old(self).received(),
     { unimplemented!() }
@@ -104,15 +108,19 @@ impl Pin<Box<Sleep>> {
         ensures *r == *old(self), *final(r) == *final(self),
     { unimplemented!() }
 
+    /// `parked()`: the most recent poll returned Pending, i.e. the timer holds this task's waker
+    pub uninterp spec fn parked(&self) -> bool;
+
     #[verifier::external_body]
     pub fn poll(&mut self, cx: &mut Context<'_>) -> (r: Poll<()>)
         ensures final(self).deadline() == old(self).deadline(),
                 (r is Ready) <==> now_spec() >= old(self).deadline(),
+                final(self).parked() == (r is Pending),
     { unimplemented!() }
 
     #[verifier::external_body]
     pub fn reset(&mut self, deadline: Instant)
-        ensures final(self).deadline() == deadline.t(),
+        ensures final(self).deadline() == deadline.t(), final(self).parked() == old(self).parked(),
     { unimplemented!() }
 }
 
@@ -162,10 +170,13 @@ impl BoxedServerService {
     pub uninterp spec fn calls(&self) -> Seq<MioStream>;
     pub uninterp spec fn polls(&self) -> nat;
     pub uninterp spec fn last_ready(&self) -> bool;
+    /// `parked()`: the most recent poll_ready returned Pending (the service holds the worker's waker)
+    pub uninterp spec fn parked(&self) -> bool;
 
     #[verifier::external_body]
     pub fn poll_ready(&mut self, cx: &mut Context<'_>) -> (r: Poll<Result<(), ()>>)
         ensures final(self).token() == old(self).token(),
+                final(self).parked() == (r is Pending),
                 final(self).calls() == old(self).calls(),
                 final(self).polls() == old(self).polls() + 1,
                 final(self).last_ready() == (r matches Poll::Ready(Ok(_))),
@@ -179,7 +190,7 @@ impl BoxedServerService {
         ensures final(self).token() == old(self).token(),
                 final(self).calls() == old(self).calls().push(req.1),
                 final(self).polls() == old(self).polls(),
-                !final(self).last_ready(),
+                !final(self).last_ready(), final(self).parked() == old(self).parked(),
     { unimplemented!() }
 }
 
@@ -202,6 +213,7 @@ impl BoxedFactory {
 
 impl<'a> LocalBoxFuture<'a, Result<(usize, BoxedServerService), ()>> {
     pub uninterp spec fn yields_token(&self) -> int;
+    pub uninterp spec fn parked(&self) -> bool;
 
     #[verifier::external_body]
     pub fn as_mut(&mut self) -> (r: &mut Self)
@@ -210,7 +222,7 @@ impl<'a> LocalBoxFuture<'a, Result<(usize, BoxedServerService), ()>> {
 
     #[verifier::external_body]
     pub fn poll(&mut self, cx: &mut Context<'_>) -> (r: Poll<Result<(usize, BoxedServerService), ()>>)
-        ensures final(self).yields_token() == old(self).yields_token(),
+        ensures final(self).yields_token() == old(self).yields_token(), final(self).parked() == (r is Pending),
                 r matches Poll::Ready(Ok(p)) ==> p.0 as int == old(self).yields_token() && p.1.token() == old(self).yields_token()
                     && p.1.calls().len() == 0 && !p.1.last_ready(),
     { unimplemented!() }
@@ -283,6 +295,16 @@ impl ServerWorker {
                 &&& forall|k: int| 0 <= k < self.services@.len() && k != r.token ==> pollable((#[trigger] self.services@[k]).status)
             },
             WorkerState::Shutdown(_) => true,
+        }
+    }
+
+    /// the wake-up source of a pending worker, by state
+    pub open spec fn parked_somewhere(&self) -> bool {
+        match self.state {
+            WorkerState::Available => self.conn_rx.parked(),
+            WorkerState::Unavailable => exists|k: int| 0 <= k < self.services@.len() && (#[trigger] self.services@[k]).service.parked(),
+            WorkerState::Restarting(r) => r.fut.parked(),
+            WorkerState::Shutdown(s) => s.timer.parked(),
         }
     }
 
@@ -390,6 +412,7 @@ impl ServerWorker {
         // Ok(false): some service is pending; statuses stay pollable
         r matches Ok(false) ==> {
             &&& exists|k: int| 0 <= k < old(self).services@.len() && (#[trigger] final(self).services@[k]).status == WorkerServiceStatus::Unavailable
+                    && final(self).services@[k].service.parked()    // a pending service holds the worker's waker
             &&& forall|k: int| 0 <= k < old(self).services@.len() && pollable(old(self).services@[k].status) ==> pollable((#[trigger] final(self).services@[k]).status)
         },
         // Err((i, f)): exactly service i failed; it is marked Failed, f names its factory, services behind it untouched  [C07]
@@ -427,7 +450,7 @@ impl ServerWorker {
                 &&& (pollable(old(self).services@[k].status) && ready ==> self.services@[k].status == WorkerServiceStatus::Available
                         && self.services@[k].service.last_ready())
             },
-            !ready ==> 0 <= wit < r9_n && self.services@[wit].status == WorkerServiceStatus::Unavailable,
+            !ready ==> 0 <= wit < r9_n && self.services@[wit].status == WorkerServiceStatus::Unavailable && self.services@[wit].service.parked(),
         decreases self.services@.len() - r9_n,
 //@end
 
@@ -440,6 +463,9 @@ impl ServerWorker {
         old(self).wf(),
     ensures
         !(r is Ready) ==> final(self).wf(),   // [C07]
+        // the Future contract: Pending is returned only with a wake-up arranged by the source the worker is waiting for
+        // in its final state (next connection / a pending service / the restart future / the shutdown tick)   [C03,C06,C07]
+        r is Pending ==> final(self).parked_somewhere(),   // [C03,C06,C07]
         final(self).table_wf(),   // [C01,C07]
         final(self).factories == old(self).factories && final(self).shutdown_timeout == old(self).shutdown_timeout,
         final(self).counter.spec_total() == old(self).counter.spec_total(),
